@@ -79,3 +79,9 @@ CLAIMS["C20"] = (
     "Decides rules R20.1-R20.6. Not decided: round-trip equality for every field content (URL escaping, base64, JSON/protobuf are library behaviour), start-up of a stored configuration, run-time panics beyond the constant-bound slice pattern." + COMMON_NOTE,
     "exhaustiveness over go/types struct fields, provenance slices, dominance, path-sensitive reachability, call-site inventories on go/ssa",
     "3/C20")
+
+CLAIMS["C16"] = (
+    "Traffic-pattern handling as code shape plus folded tables: stores into the effective pattern are unreachable when the same original field is set (path-sensitive, per field); generators call only seed-scoped rng.FixedInt with distinct per-field hints and FixedInt's cache is independent of n; generated extremes (FixedInt at 0 and n-1, both unlockAll values) are folded and fed to the validators, the implicit minLen is capped by an explicit maxLen, NONCE_TYPE_FIXED is never generated; consumers: prefix/suffix padding capped by the middle/end setting respectively, the cap function folds to min(budget, configured), the server's low-entropy decision folds to 'only after the client used it'; Encode/Decode are whole-message.",
+    "Decides rules R16.1-R16.5. Not decided: that emitted bytes have the configured statistical shape, rng distributions, nonce rewriting content, TCP fragmentation timing." + COMMON_NOTE,
+    "path-sensitive reachability per field, call inventory, constant folding with hooks for rng draws, provenance search on go/ssa",
+    "3/C16")
